@@ -76,7 +76,7 @@ Section LearnFull.
   (* everything one pass of the while loop computes before the exchanges *)
   Record fiter := mkFIter {
     fi_X : list nat; fi_Y : list nat;      (* the training set this iteration fitted on *)
-    fi_Yv : list nat;                      (* Y_val as it stood *)
+    fi_Xv : list nat; fi_Yv : list nat;    (* the validation set as it stood *)
     fi_nodes : @nodes W;                   (* self.subgraph after fit and predict *)
     fi_preds : list nat;                   (* preds *)
     fi_acc : A;                            (* acc *)
@@ -87,7 +87,7 @@ Section LearnFull.
   Definition iterate (prev : A) (st : lstate nat) : fiter :=
     let r := predict_on (l_Xt st) (fit_on (l_Xt st) (l_Yt st)) (l_Xv st) in
     let acc := ao_acc ao (l_Yv st) (snd r) in
-    mkFIter (l_Xt st) (l_Yt st) (l_Yv st) (fst r) (snd r) acc
+    mkFIter (l_Xt st) (l_Yt st) (l_Xv st) (l_Yv st) (fst r) (snd r) acc
             (err_positions (l_Yv st) (snd r)) (ao_small ao acc prev).
 
   Record fresult := mkFRes {
